@@ -176,3 +176,76 @@ class Canon:
     def text(self, e, subst=None):
         x = self.expand(e, subst)
         return SX.show(SX.strip(x)) if SX.is_node(x) else None
+
+
+# ---- statement-level closure inlining -----------------------------------------------------------------------------------
+def inline_closures(prog, f, depth=3):
+    """A copy of function f in which every expression statement that calls a local closure (`auto step = [&](T x) {…}; … step(a);`)
+    is replaced by the block `{ T x = a; …closure body… }`.  Exact when the closure variable is never reassigned, the closure is
+    not recursive and its body has no `return` (a return would leave the closure, not f): only such calls are inlined, all others
+    stay as they are.  Typestate rules written over one function's CFG then see through a body that was split into local
+    closures.  Returns f itself when there is nothing to inline."""
+    import copy
+    if not f.body:
+        return f
+    cached = getattr(prog, '_inlined', None)
+    if cached is None:
+        cached = prog._inlined = {}
+    if id(f) in cached:
+        return cached[id(f)]
+    canon = Canon(prog, f)
+    count = [0]
+
+    def inlinable(lf):
+        if not (SX.is_node(lf.body) and lf.body.get('k') == 'block'):
+            return False
+        for n in SX.walk(lf.body, into_lambdas=False):
+            if n['k'] == 'return':
+                return False
+        return True
+
+    def rewrite(s, d, stack):
+        if not isinstance(s, dict):
+            return s
+        if s.get('k') == 'expr' and d > 0:
+            c = canon.closure(SX.strip(s.get('e')))
+            if c and inlinable(c[0]) and id(c[0]) not in stack and len(c[1]) == len(c[0].params):
+                lf, args = c
+                decls = []
+                for prm, a in zip(lf.params, args):
+                    decls.append({'k': 'var', 'id': prm['id'], 'name': prm.get('name', ''), 'type': prm.get('type', ''), 'init': a, 'ln': s.get('ln'), 'col': s.get('col'),
+                                  'inlined_param': True})
+                body = [rewrite(x, d - 1, stack | {id(lf)}) for x in lf.body['body']]
+                count[0] += 1
+                out = {'k': 'block', 'ln': s.get('ln'), 'col': s.get('col'), 'body': ([{'k': 'decls', 'd': decls, 'ln': s.get('ln')}] if decls else []) + body,
+                       'inlined_from': lf.name}
+                return out
+            return s
+        if s.get('k') == 'lambda':
+            return s
+        out = None
+        for key, v in s.items():
+            nv = v
+            if isinstance(v, dict):
+                nv = rewrite(v, d, stack)
+            elif isinstance(v, list) and v and all(isinstance(x, dict) for x in v):
+                nl = [rewrite(x, d, stack) for x in v]
+                if any(a is not b for a, b in zip(nl, v)):
+                    nv = nl
+            if nv is not v:
+                if out is None:
+                    out = dict(s)
+                out[key] = nv
+        return out if out is not None else s
+
+    nb = rewrite(f.body, depth, frozenset())
+    if not count[0]:
+        cached[id(f)] = f
+        return f
+    f2 = copy.copy(f)
+    f2.body = nb
+    f2.d = dict(f.d, body=nb)
+    f2.inlined = count[0]
+    cached[id(f)] = f2
+    return f2
+
